@@ -110,6 +110,16 @@ def run(facts, cg):
             continue
         dom = None
         for bi, t in b.calls():
+            # a store through the entry API can only happen when the key is absent (VacantEntry) or keeps what is there (or_insert)
+            if 'q' in t['callee'] and callee_q(t).endswith(('VacantEntry::insert', 'VacantEntry::insert_entry', 'Entry::or_insert', 'Entry::or_insert_with',
+                                                             'Entry::or_insert_with_key')) and len(t['args']) == 2:
+                a1 = t['args'][1]
+                carried = b.lty(a1['pl']['l']) if a1['k'] in ('copy', 'move') else {}
+                if carried.get('adt') == VER or (callee_q(t).endswith(('or_insert_with', 'or_insert_with_key')) and b.lty(t['dest']['l']).get('k') == 'ref'
+                                                  and b.ty(b.lty(t['dest']['l'])['args'][0]).get('adt') == VER):
+                    n_store += 1
+                    instances.append({'rule': 'R-STOREONCE', 'function': b.q, 'insert_at': t['loc'], 'guarded_by_absence_test': 'entry API'})
+                continue
             if 'q' not in t['callee'] or not callee_q(t).endswith('HashMap::insert') or len(t['args']) < 3:
                 continue
             a2 = t['args'][2]
